@@ -186,8 +186,57 @@ SHARED = {
 }
 
 
-def decorate(node: dict, item: dict, op: dict, deco: str) -> None:
+WORDS = ["Organization", "Project", "Deployment", "Telemetry", "Snapshot", "Record", "Envelope"]
+
+
+def long_name(length: int, style: str, seed: str) -> str:
+    """A name of exactly `length` characters: PascalCase (models) or snake_case (parameters)."""
+    sep = "_" if style == "snake" else ""
+    s = "Long" + seed
+    i = 0
+    while len(s) < length:
+        s += sep + WORDS[i % len(WORDS)]
+        i += 1
+    s = s[:length].rstrip("_")
+    s += "x" * (length - len(s))
+    return s.lower() if style == "snake" else s
+
+
+def _replace_refs(v: Any, mapping: dict[str, str]) -> Any:
+    if isinstance(v, dict):
+        return {k: (mapping.get(x, x) if k == "$ref" and isinstance(x, str) else _replace_refs(x, mapping)) for k, x in v.items()}
+    if isinstance(v, list):
+        return [_replace_refs(x, mapping) for x in v]
+    return v
+
+
+def decorate(node: dict, item: dict, op: dict, deco: str, schemas: dict) -> None:
     """One unusual-but-valid construct added to an operation (names = Gen_Surface!Decos).  `item` is the path item."""
+    if deco.startswith("long_model_"):
+        # every model this operation's signature mentions (return type, request body) gets a name of the given length
+        length = int(deco.rsplit("_", 1)[1])
+        mapping = {}
+        for base in ["R", f"M{op['oid']}"]:
+            name = long_name(length, "pascal", base)
+            schemas[name] = copy.deepcopy(schemas[base])
+            mapping["#/components/schemas/" + base] = "#/components/schemas/" + name
+        for k in ("responses", "requestBody"):
+            if k in node:
+                node[k] = _replace_refs(node[k], mapping)
+        return
+    if deco.startswith("long_param_"):
+        length = int(deco.rsplit("_", 1)[1])
+        node.setdefault("parameters", []).append({"name": long_name(length, "snake", "filter"), "in": "query", "required": False, "schema": {"type": "string"}})
+        return
+    if deco == "inline_response":
+        # the item schema is declared inline: the loader promotes it to <OperationId><status>Response
+        inline = {"type": "object", "properties": {"x": {"type": "string"}, "n": {"type": "integer"}}}
+        node["responses"] = _replace_refs(node["responses"], {})
+        for r in node["responses"].values():
+            for media in (r.get("content") or {}).values():
+                if media.get("schema") == {"$ref": "#/components/schemas/R"}:
+                    media["schema"] = copy.deepcopy(inline)
+        return
     ok = node["responses"]["200"]
     if deco == "resp_default_only":
         node["responses"] = {"default": ok}
@@ -228,13 +277,14 @@ def decorate(node: dict, item: dict, op: dict, deco: str) -> None:
 
 def document(doc: dict) -> dict:
     paths: dict[str, Any] = {}
+    schemas = copy.deepcopy(COMPONENTS)
     for op in doc["ops"]:
         item = paths.setdefault(op["path"], {})
         node = operation_node(op)
         for deco in op.get("decos", []):
-            decorate(node, item, op, deco)
+            decorate(node, item, op, deco, schemas)
         item[op["method"].lower()] = node
-    return {"openapi": "3.0.3", "info": {"title": "Surface", "version": "1.0.0"}, "paths": paths, "components": {"schemas": copy.deepcopy(COMPONENTS), **copy.deepcopy(SHARED)}}
+    return {"openapi": "3.0.3", "info": {"title": "Surface", "version": "1.0.0"}, "paths": paths, "components": {"schemas": schemas, **copy.deepcopy(SHARED)}}
 
 
 def _scalar(v: Any) -> str:
@@ -886,7 +936,9 @@ def rule_text(tier: str) -> str:
         "and in triples; V one path item carrying all eight OpenAPI 3 verbs; X one unusual-but-valid construct per document on one / all "
         "operations (responses keyed default only, 4XX/5XX, 4xx, 2XX, several statuses, 204, description only, $ref to components.responses, "
         "200 + default; parameters / requestBody by $ref; path-level parameters, summary, description, servers; x- extensions, deprecated, "
-        "externalDocs; operation-level servers / security / empty lists), pairs in thorough.  Every document is generated on the force path (the only path that writes output) "
+        "externalDocs; operation-level servers / security / empty lists), pairs in thorough; L LONG names (64..160 characters, thorough every 8 "
+        "from 48 to 168) for what ends up in signatures - return-type / body models, a parameter name, the operationId + an inline response "
+        "schema (promoted to <OperationId>200Response) - x kinds plain, multi, sse, ndjson, longsig, next to a short control operation.  Every document is generated on the force path (the only path that writes output) "
         "and observed once; non-trivial = judged document with >= 2 (operation, tag class) pairs (C07) / with mock methods compared (C13)"
     )
 
